@@ -98,14 +98,14 @@ def build(tier, seed, exclude):
         """, timeout=30, kind="twin")
     # parse_mount_table keeps the order get_mount relies on and the cifs sub-tree rule
     g.raw("""
-    _POOL = ["/data", "/data2", "/data/sub", "/d", "/mnt", "/mnt/a.b", "/datab/x"]
+    _POOL = ["/data", "/data2", "/data/sub", "/d", "/mnt", "/mnt/a.b", "/datab/x", "/"]
     _FILES = ["", "/f", "2/f", "/sub/f", "b/x/f", ".b"]
     """)
     g.cond("h_parse_order", "i: int, j: int, k: int, f: int, swap: bool",
-           ["0 <= i < 7 and 0 <= j < 7 and 0 <= k < 7 and 0 <= f < 6"], """
+           ["0 <= i < 8 and 0 <= j < 8 and 0 <= k < 8 and 0 <= f < 6"], """
         m1, m2 = _POOL[i], _POOL[j]
         p = _POOL[k] + _FILES[f]
-        if m1 == m2 or p.endswith("/") or "//" in p:
+        if m1 == m2 or (p.endswith("/") and p != "/") or "//" in p or p.startswith("/2") or p.startswith("/b/") or p.startswith("/."):
             return True
         lines = ["//srv/x on %s type cifs (rw)" % m1, "//srv/y on %s type CIFS (rw)" % m2]
         if swap:
@@ -116,10 +116,37 @@ def build(tier, seed, exclude):
             cifs = MI.on_cifs(p)
         T.reach()
         em, et = _oracle([(m1, "cifs"), (m2, "CIFS")], p)
-        if str(mp) != em or cifs != (em != "/" and et == "cifs"):
+        if str(mp) != em or cifs != (et == "cifs"):
             return T.fail(lambda: f"parse_mount_table+get_mount({p!r}) mounts {m1!r},{m2!r} -> {str(mp)!r},{cifs} expected {em!r}")
         return True
         """, timeout=to)
+    # mount-point names with characters that are special to pattern languages (regular expressions, globs, format strings):
+    # the path differs from the mount point in exactly one position, by a symbolic character
+    g.raw("""
+    _SPECIAL = ["a.b", "a*", "a+b", "ab?", "[ab]", "a|b", "(a)", "a$", "^a", "a{1}", "a b", "%s", "{0}", "a~", "a#b", "a.b.c"]
+    """)
+    g.cond("h_mount_special", "i: int, pos: int, ch: str, deep: bool, root: bool", ["0 <= i < 16 and 0 <= pos < 5 and len(ch) <= 1", "ch != '/' and chr(0) not in ch"], """
+        name = _SPECIAL[T.real(i)]
+        pos = T.real(pos)
+        if pos >= len(name):
+            return True
+        sib = name[:pos] + ch + name[pos + 1:]
+        if sib in ("", ".", ".."):
+            return True
+        m1 = "/mnt/" + name
+        p = "/mnt/" + sib + ("/sub/f" if deep else "")
+        tbl = _table([m1, "/mnt"] + (["/"] if root else []))
+        with MI.patch_table(tbl):
+            mp, fs = MI.get_mount(p)
+            same = MI.on_same_mount(p, m1 + "/g")
+        T.reach()
+        em, et = _oracle(tbl, p)
+        if not (str(mp) == em and fs == et):
+            return T.fail(lambda: f"get_mount({p!r}) with table {tbl} -> {(str(mp), fs)}, expected {(em, et)}")
+        if same != (em == m1):
+            return T.fail(lambda: f"on_same_mount({p!r}, {m1 + '/g'!r}) = {same} with table {tbl}")
+        return True
+        """, timeout=to * 2)
     return g.spec(bounds={"mounts": "2-3 (two symbolic + optional '/')", "mount depth": "1-2 components",
                           "path depth": "1-3 components", "component length": "1-3 chars, any Unicode except '/' and NUL",
                           "E2": "3 mounts, strings <= 12 chars over the full alphabet"})
